@@ -120,3 +120,12 @@ def run(ctx):
     ctx.assume("user Air implementations (Air::new, evaluate_transition, get_assertions, ...) do not panic")
     ctx.assume("field arithmetic and hash permutations do not panic on representable inputs (representation invariant, C10/C16)")
     ctx.assume("sites whose operands are not data-dependent on the entry points' inputs behave as on honest runs")
+
+
+def thorough(ctx):
+    """repeat the inventory on the concurrent and the no_std build (cfg-dependent code paths)."""
+    for cfg in ("concurrent", "nostd"):
+        def go(c, cfg=cfg):
+            entries = entry_points(c.prog(cfg))
+            run_inventory(c, "A5", entries, "same scope as the default build", cfg=cfg)
+        ctx.guard("A5", go)
